@@ -23,9 +23,10 @@ type RT struct {
 	Armed   []string // sites that returned an injected error in this execution
 	Reached []string // fault sites reached (in order)
 	// order control
-	User func(key string) bool
-	Base []string // default relative order of the permutable keys (nil: sorted)
-	Mode int      // 0 permutable keys stay in their sorted slots, 1 first, 2 last
+	User     func(key string) bool
+	Base     []string // default relative order of the permutable keys (nil: sorted)
+	Mode     int      // 0 permutable keys stay in their sorted slots, 1 first, 2 last
+	InitDone bool     // nodes log "init-done:<name>" when their Init returns nil
 	// ErrShape selects what kind of error value armed fault sites and failing participants return
 	ErrShape int
 	Perms    int // number of 'P' points seen
